@@ -83,7 +83,8 @@ pub fn gen(tier: &str, r: &mut Rng) -> Vec<String> {
             }
             _ => {
                 // connect_atoms on a small peptide-like cloud
-                let o = GenOpts { max_models: 1, max_chains: 2, max_res: 3, max_conf: 1, max_atoms: 4, allow_empty: false, coord_step: 100_000, ..GenOpts::default() };
+                // connect_atoms infers bonds in every model, not only the first
+                let o = GenOpts { max_models: 3, max_chains: 2, max_res: 3, max_conf: 1, max_atoms: 4, allow_empty: false, coord_step: 100_000, ..GenOpts::default() };
                 let mut s = gen_pdb(r, &o);
                 for m in s.models.iter_mut() { for c in m.chains.iter_mut() { for x in c.residues.iter_mut() { for f in x.confs.iter_mut() { for a in f.atoms.iter_mut() {
                     a.x = r.range(0, 40) * 100_000; a.y = r.range(0, 20) * 100_000; a.z = 0;
